@@ -62,4 +62,17 @@ PROPS = {
         "explanation": "theorems (for arbitrary inner filesystems and an arbitrary world invariant): every overlay method preserves what the upper layer's methods and the lower layers' OBSERVER methods preserve, "
                        "so nothing but observers is ever called on a lower layer; overlay observers preserve what the layers' observers preserve; instances: lower leaves unchanged (any number of layers, also under an altroot), no mutating call in the log of a lower recorder",
     },
+    "C07": {
+        "module": "VfsModel.Props.C07",
+        "namespace": "Vfs.C07",
+        "required_theorems": ["altroot_path_append", "join_never_escapes", "joins_never_escape", "altroot_exact_createDir", "altroot_exact_readDir",
+                              "altroot_exact_copyFile", "physical_get_path_confined", "altroot_confined", "altroot_confined_log",
+                              "altroot_confined_strict", "altroot_confined_nested", "raw_call_escapes"],
+        "streams": [("record", ["--prop", "C07"]), ("tree", ["--prop", "C07"])],
+        "rule": "record stream: altroot over a recorded underlying filesystem (memory, physical, overlay, altroot of altroot), altroot directory P of depth 0-3, content outside P; histories of 25/50 calls, one in five with a hostile path expression ('..' chains, absolute segments, '//'); "
+                "per call: every recorded (method, path) of the underlying filesystem, deep snapshot of the underlying tree inside and outside P, the altroot's own snapshot. tree stream: the same histories on altroot configurations against the model and the reference tree re-rooted at P",
+        "modelled_not_verified": ["PathBuf::join is modelled by pathBufJoin (relative argument appended, absolute argument replaces)", "symlinks are outside the property"],
+        "assumptions": COMMON_ASSUME + ["reading recorded in DESIGN.md 6.0: the parent probe (exists+metadata, never a mutation) of VfsPath::create_dir/create_file on the altroot's own root looks at the directory chain P consists of; it is not counted as reading outside P (LogBelow's second disjunct)"],
+        "explanation": "theorems: AltrootFS::path appends (canonical P, q); no join argument whatsoever escapes; each altroot method IS the VfsPath operation on P++q (equal state transformers); the only paths that reach the underlying filesystem have P as component-wise prefix (for every invariant, for the call log, nested altroots); PhysicalFS::get_path appends canonical paths to the host root; raw non-canonical trait calls do escape (why canonicity is needed)",
+    },
 }
